@@ -37,15 +37,27 @@ RULE = ("type-directed constructions through the public builders only: P(...), P
         "estimands and the F4/F5 witnesses. A case is non-trivial when the built object has >= 2 leaves and contains a product, "
         "a sum or a fraction. Thorough adds a token-string stream (mutated printed texts) comparing PyParse with Python's parser.")
 ASSUMPTIONS = [
+    "the theorems quantify over expressions satisfying the decidable invariant `built` (children/parents/ranges/(co)domains/"
+    "subscripts sorted with each name once, products flat and in stable-sorted order without constant factors, Zero() only as the "
+    "whole expression); that every object the public builders and operators produce satisfies it is NOT a theorem (OPEN: "
+    "built_closed): it is decided by the model on every Python-built object of every run (correspondence stream `domain`)",
     "quantifier: variable names are those of the parser's name table (A..Z without P/Q, Pi, π, with optional digit or _digit); "
     "a name outside the table (e.g. TARGET_DOMAIN 'pi*', 'AA') cannot be parsed by design of parse_y0 and is outside the property",
-    "quantifier: Q factors and Sum ranges are non-empty (Q[...]() / Sum over nothing cannot be written with the documented builders)",
+    "quantifier: each distribution, each subscript list, each Sum range and each Q-(co)domain mentions a name at most once "
+    "(the property's own restriction, extended to subscripts: Y @ (+X, -X) is not generated); Q factors and ranges are non-empty",
     "the tie between the hand-written grammar (Model/PyParse) and Python's parser is correspondence stream (ii): `ast.parse` on every "
-    "printed text (and on mutated token strings in the thorough tier), not a theorem",
-    "Python's `tokenize` is trusted to be the lexer `eval` uses; the printers' white space is not modelled (token level)",
-    "frozenset iteration order (P[...] subscripts before the F4 fix) is not modelled; the model prints sorted subscripts",
+    "printed text and on mutated token strings, not a theorem; Python's `tokenize` is trusted to be the lexer `eval` uses; the "
+    "printers' white space is not modelled (token level)",
+    "the tie between Model/PyEval and dsl.py (builders, `__mul__`/`__truediv__` overloads, Product.safe, Sum.safe, QFactor.safe, "
+    "Distribution.safe) is correspondence streams `built` and `reparsed` (sampling); the interpreter is parametric in the order "
+    "Product.safe sorts with and no theorem depends on it; Python's TypeError for incomparable sort keys is not modelled",
+    "`den` (lean/Y0/Spec/Sem.lean, owned by the expr family) is the specification of meaning; the Python oracle uses its own "
+    "exact-rational evaluator (harness/oracles/print_eval.py) with the same reading convention",
+    "frozenset iteration order and hash seeds are not modelled (the model prints sorted subscripts, as the fixed code does); run the "
+    "check under several PYTHONHASHSEED values to exercise them",
 ]
 EXHAUSTIVE = {"quick": False, "thorough": False}
+ESCALATED_TIER = "escalated"   # generator budget of a quick run when an anchored source file changed (≈ 1.5 min)
 LEANCHECK_MODULES = ["Y0.Model.Print", "Y0.Model.PyParse", "Y0.Model.PyEval", "Y0.Props.C12"]
 
 COMMON = ["A", "B", "C", "D", "W", "X", "Y", "Z"]
@@ -208,6 +220,39 @@ class Gen:
         return ["call", ["sub", ["k", "Sum"], self.ranges()], self.simple(depth - 1, c)]
 
 
+    def tricky(self, depth):
+        """shapes known to leave the simple-division family: a fraction as a factor (Sum * Fraction), constants as
+        operands, divisions by fractions, products of fractions"""
+        rng = self.rng
+        sub = lambda: self.free(max(depth - 1, 0)) if rng.random() < 0.5 else self.simple(max(depth - 1, 0), "operand")  # noqa: E731
+        one, zero = ["call", ["k", "One"]], ["call", ["k", "Zero"]]
+        sm = lambda x: ["call", ["sub", ["k", "Sum"], self.ranges()], x]  # noqa: E731
+        r = rng.randrange(12)
+        if r == 0:
+            return ["bin", "mul", sm(sub()), ["bin", "div", sub(), sub()]]
+        if r == 1:
+            return ["bin", "mul", sub(), ["bin", "mul", sm(sub()), ["bin", "div", sub(), sub()]]]
+        if r == 2:
+            return ["bin", "div", one, sub()]
+        if r == 3:
+            return ["bin", "div", sub(), ["bin", "div", one, sub()]]
+        if r == 4:
+            return ["bin", "div", ["bin", "div", sub(), sub()], ["bin", "div", sub(), sub()]]
+        if r == 5:
+            return sm(one)
+        if r == 6:
+            return ["bin", "mul", ["bin", "div", sub(), sub()], ["bin", "div", sub(), sub()]]
+        if r == 7:
+            return ["bin", "mul", rng.choice([zero, one]), sub()] if rng.random() < 0.5 else ["bin", "mul", sub(), rng.choice([zero, one])]
+        if r == 8:
+            return ["bin", "div", zero, sub()] if rng.random() < 0.7 else ["bin", "div", sub(), zero]
+        if r == 9:
+            return sm(["bin", "mul", sm(sub()), ["bin", "div", sub(), ["bin", "mul", sub(), sub()]]])
+        if r == 10:
+            return ["bin", "div", ["bin", "mul", sm(one), sub()], ["bin", "mul", sub(), sm(sub())]]
+        return ["bin", "div", sub(), ["bin", "mul", ["bin", "div", sub(), sub()], sub()]]
+
+
 def load_corpus():
     out = []
     if CORPUS_DIR.exists():
@@ -235,13 +280,14 @@ def _mutate_tokens(rng, toks):
 
 def cases(rng: random.Random, tier: str):
     out = load_corpus()
-    n = 2200 if tier == "quick" else 22000
+    n = {"quick": 9000, "escalated": 36000}.get(tier, 90000)
     for _ in range(n):
         g = Gen(random.Random(rng.randrange(1 << 60)))
         depth = g.rng.choice([1, 2, 2, 3, 3, 4, 5])
-        a = g.simple(depth) if g.rng.random() < 0.5 else g.free(depth)
+        r = g.rng.random()
+        a = g.simple(depth) if r < 0.45 else (g.free(depth) if r < 0.8 else g.tricky(min(depth, 3)))
         out.append({"kind": "expr", "build": a})
-    m = 300 if tier == "quick" else 6000
+    m = {"quick": 1500, "escalated": 6000}.get(tier, 15000)
     exprs = [c for c in out if c["kind"] == "expr"]
     for _ in range(m):
         base = rng.choice(exprs)
@@ -523,7 +569,25 @@ def finding_key(case, res):
 
 
 MANIFEST = {
-    "text": "filled in below",
-    "note": "",
-    "technique": "",
+    "text": ("Proof, all three clauses at full strength over the decidable invariant `built` of builder-made objects. Lean theorems about "
+             "executable models of every to_y0() (token printer), of Python's expression grammar on the printed alphabet (precedence "
+             "| < & < + - < * / @ < unary < call/subscript) and of eval(s, {}, LOCALS) over models of P/PP/Sum/Q/One/Zero, the variable "
+             "operators and every __mul__/__truediv__ overload: (1) parse_print_ast(_cont): the printed tokens of every well-formed "
+             "expression, followed by any continuation, parse to exactly the operator tree of the object - printing is unambiguous; "
+             "(2) parse_print_den / parse_print_total: for every built expression (fractions of fractions, fraction factors, constants) "
+             "parsing the printed form succeeds and the result has the same denotation in every family of distributions, with no "
+             "positivity hypothesis; (3) parse_print_eq / parse_print_same_text: on the simple-division family the parsed object IS "
+             "the original and prints the same text. Not theorems: that Python-built objects satisfy `built`, and that the models agree "
+             "with dsl.py / parser/internal.py / Python's own grammar - decided on every run by seven correspondence streams (objects "
+             "built by the real operators, `tokenize` of str(e), `ast.parse` of str(e), parse_y0(str(e)), the `built` and "
+             "simple-division predicates on the Python object, Python's parser on mutated token strings) plus the oracle."),
+    "note": ("Trusted: Lean kernel; axioms propext/Classical.choice/Quot.sound; the hand-written models tied to the code by sampling; the "
+             "specification `den` (Spec/Sem); Python's tokenize/ast as the reference for its grammar. Three defects were found by this "
+             "check and fixed (product denominators printed without parentheses; One/Zero missing from the parser's names; P[...] "
+             "subscripts printed in frozenset order); the models describe the fixed code. Names outside the parser's table, empty Q "
+             "factors and subscript lists naming a variable twice are outside the quantifier (see assumptions)."),
+    "technique": ("Lean 4 theorems (fuel-bounded recursive-descent model of Python's grammar; induction over expressions with the "
+                  "'printed form followed by any continuation' strengthening; algebra of ℚ for the meaning clause) + differential "
+                  "correspondence with the real printers, tokenize, ast.parse, parse_y0 and the real operators + exact-rational "
+                  "identity-testing oracle"),
 }
